@@ -51,6 +51,9 @@ type Case struct {
 	Yield bool `json:"yield,omitempty"`
 	// Cancel: offer "cancel request context" as an environment event (C05).
 	Cancel bool `json:"cancel,omitempty"`
+	// IgnoreCancel: resolvers do NOT look at their context (they return their values even
+	// when the request context was cancelled mid-flight).
+	IgnoreCancel bool `json:"ignore_cancel,omitempty"`
 	// Intercept: the fault-capable field interceptor is registered and active (C04).
 	Intercept bool `json:"intercept,omitempty"`
 }
@@ -173,7 +176,7 @@ func (s *Shared) NewInst(c Case, doc *ast.QueryDocument) *Inst {
 
 func (in *Inst) Body() {
 	s := in.S
-	in.Env = &Env{Plan: in.C.Plan, DefaultImpl: s.W.DefaultImpl, AltImpl: s.W.AltImpl, RogueImpl: s.W.RogueImpl, Yield: in.C.Yield, HonourCancel: in.C.Cancel, Intercept: in.C.Intercept}
+	in.Env = &Env{Plan: in.C.Plan, DefaultImpl: s.W.DefaultImpl, AltImpl: s.W.AltImpl, RogueImpl: s.W.RogueImpl, Yield: in.C.Yield, HonourCancel: in.C.Cancel && !in.C.IgnoreCancel, Intercept: in.C.Intercept}
 	s.cur = in.Env
 	ctx := context.Background()
 	if in.C.Cancel {
